@@ -10,34 +10,50 @@
 (*   Wake       pipe.rs:134-152  write() or send(MSG_DONTWAIT), errors     *)
 (*              ignored                                                    *)
 (*   Drop       pipe.rs:126-132  close()                                   *)
-(* Parameters extracted from probes of the running code: Method[kind] and  *)
+(*   Reject     the registration is refused: while setting O_NONBLOCK      *)
+(*              (pipe.rs:191, a descriptor fcntl(F_SETFL) refuses, e.g.    *)
+(*              O_PATH), by the OS (Err from the registry) or by the       *)
+(*              forbidden check (panic); the descriptor was handed over,   *)
+(*              so it is closed - once.                                    *)
+(* Parameters extracted from probes of the running code: Method[kind],     *)
 (* SetsNonblock (does the write path switch the descriptor to              *)
-(* non-blocking).                                                          *)
+(* non-blocking) and RejectCloses[stage] (close() calls observed on the    *)
+(* descriptor when the registration is refused at that stage).             *)
 (***************************************************************************)
 EXTENDS Naturals, Sequences, TLC
 
 CONSTANTS Method,        \* [kind -> "send" | "write"]: what RegRaw chose
           SetsNonblock,  \* TRUE (the code)
+          RejectCloses,  \* [stage -> number of close() calls on the descriptor]
           Cap,           \* capacity of the model pipe
           MaxOps
 
 Kinds == {"pipe", "pipe_nonblock", "stream", "dgram"}
+Unsettable == "opath"          \* a descriptor that is not a socket and refuses F_SETFL
+Stages == {"setflags", "registry_err", "registry_panic"}
 
 VARIABLES kind, nonblock, bytes, state, delivered, sinceDrain, blockedForever, closes, ops
 pvars == <<kind, nonblock, bytes, state, delivered, sinceDrain, blockedForever, closes, ops>>
 
 PInit ==
-    /\ kind \in Kinds
+    /\ kind \in Kinds \cup {Unsettable}
     /\ nonblock = (kind = "pipe_nonblock")
     /\ bytes \in {0, 1, Cap}
     /\ state = "created" /\ delivered = 0 /\ sinceDrain = 0 /\ blockedForever = FALSE
     /\ closes = 0 /\ ops = 0
 
 RegRaw ==
-    /\ state = "created" /\ ops < MaxOps
+    /\ state = "created" /\ ops < MaxOps /\ kind # Unsettable
     /\ nonblock' = (nonblock \/ (Method[kind] = "write" /\ SetsNonblock))
     /\ state' = "registered" /\ ops' = ops + 1
     /\ UNCHANGED <<kind, bytes, delivered, sinceDrain, blockedForever, closes>>
+
+\* The registration is refused; whatever the stage, the descriptor's owner is gone.
+Reject(stage) ==
+    /\ state = "created" /\ ops < MaxOps
+    /\ IF kind = Unsettable THEN stage = "setflags" ELSE stage # "setflags"
+    /\ state' = "rejected" /\ closes' = closes + RejectCloses[stage] /\ ops' = ops + 1
+    /\ UNCHANGED <<kind, nonblock, bytes, delivered, sinceDrain, blockedForever>>
 
 \* One delivery: one attempt to put one byte in.
 Wake ==
@@ -61,11 +77,12 @@ Unregister ==
     /\ state' = "closed" /\ closes' = closes + 1 /\ ops' = ops + 1
     /\ UNCHANGED <<kind, nonblock, bytes, delivered, sinceDrain, blockedForever>>
 
-PNext == RegRaw \/ Wake \/ Drain \/ Unregister \/ UNCHANGED pvars
+PNext == RegRaw \/ (\E st \in Stages : Reject(st)) \/ Wake \/ Drain \/ Unregister
+         \/ UNCHANGED pvars
 PSpec == PInit /\ [][PNext]_pvars
 
 \* C13
 WakeNeverBlocks == ~blockedForever
-ClosedExactlyOnce == closes <= 1 /\ (state = "closed" <=> closes = 1)
+ClosedExactlyOnce == closes <= 1 /\ (state \in {"closed", "rejected"} <=> closes = 1)
 BytesLeqDeliveries == sinceDrain <= delivered
 =============================================================================
